@@ -148,6 +148,9 @@ inductive STree where
   /-- everything below mapped call `call` (with its index set; `ok` = the size is statically known,
   not zero, and all split inputs agree) -/
   | sub (call : String) (isMap : Bool) (ixs : List Idx) (ok : Bool) (children : List STree)
+  /-- everything below a call with a run-time `disabled` control `d` (nothing below runs in the
+  forks where `d` is true) -/
+  | guard (d : RExp) (children : List STree)
 deriving Inhabited
 
 def splitsStaticT (st : StructTable) (self sib : RBMap) (ins : List Param) (c : Call)
@@ -173,13 +176,24 @@ def staticCallsT (st : StructTable) (insOf : String → List Param)
       let r := node c.callee (path ++ [c.id]) cins
       let ci := callIndicesT st self sib (insOf c.callee) c
       let ixs := ci.getD (false, [])
-      let ok := ci.isSome && !ixs.2.isEmpty && splitsStaticT st self sib (insOf c.callee) c ixs
+      -- a `disabled` modifier on a map call is not covered
+      let ok := ci.isSome && !ixs.2.isEmpty && splitsStaticT st self sib (insOf c.callee) c ixs &&
+        c.disabled.isNone
       staticCallsT st insOf node path self cs (sib ++ [(c.id, unrolledOutputsT c ixs r.1.exp)])
         (acc ++ [.sub c.id ixs.1 ixs.2 ok r.2])
     else
       let cins := resolveBindsT st self sib (insOf c.callee) c
       let r := node c.callee (path ++ [c.id]) cins
-      staticCallsT st insOf node path self cs (sib ++ [(c.id, r.1)]) (acc ++ r.2)
+      match c.disabled with
+      | some (_, e) =>
+        -- `resolveDisable` + `makeDisabled` / `makeDisabledExp`: a constant false control is dropped,
+        -- any other control guards everything below and wraps the call's outputs
+        match resolveRefs self sib e with
+        | .lit (.atom "false") => staticCallsT st insOf node path self cs (sib ++ [(c.id, r.1)]) (acc ++ r.2)
+        | d =>
+          staticCallsT st insOf node path self cs (sib ++ [(c.id, ⟨mkDisabled d r.1.exp, r.1.ty⟩)])
+            (acc ++ [.guard d r.2])
+      | none => staticCallsT st insOf node path self cs (sib ++ [(c.id, r.1)]) (acc ++ r.2)
 
 def staticCallableT (P : Program) (nm : List String → String) :
     Nat → String → List String → RBMap → RB × List STree
@@ -187,7 +201,7 @@ def staticCallableT (P : Program) (nm : List String → String) :
   | fuel+1, callee, path, ins =>
     match P.callables.lookup callee with
     | none => (⟨.lit .null, badTy⟩, [])
-    | some (.stage _ _) => (⟨.ref (nm path) ⟨callee, 0, 0⟩ [], ⟨callee, 0, 0⟩⟩, [.node ⟨path, callee, ins, []⟩])
+    | some (.stage _ _) => (⟨.ref (nm path) ⟨callee, 0, 0⟩ [], ⟨callee, 0, 0⟩⟩, [.node ⟨path, callee, ins, [], []⟩])
     | some (.pipeline _ outs calls ret) =>
       let r := staticCallsT P.table P.insOf (staticCallableT P nm fuel) path ins calls [] []
       (⟨.struct (outs.map fun p =>
@@ -204,10 +218,22 @@ def staticProgramT (P : Program) (nm : List String → String) : RB × List STre
   staticCallableT P nm P.fuel P.top.callee [P.top.id] (topInputsT P)
 
 mutual
+/-- the stage nodes with all their enclosing fork dimensions (outermost first) and controls -/
+def flattenD (dims : List (String × List Idx)) (dis : List RExp) : STree → List SNode
+  | .node n => [{ n with forks := dims, disable := dis }]
+  | .sub c _ ixs _ ch => flattenDList (dims ++ [(c, ixs)]) dis ch
+  | .guard d ch => flattenDList dims (dis ++ [d]) ch
+def flattenDList (dims : List (String × List Idx)) (dis : List RExp) : List STree → List SNode
+  | [] => []
+  | t :: ts => flattenD dims dis t ++ flattenDList dims dis ts
+end
+
+mutual
 /-- the stage nodes with all their enclosing fork dimensions (outermost first) -/
 def flattenT (dims : List (String × List Idx)) : STree → List SNode
   | .node n => [{ n with forks := dims }]
   | .sub c _ ixs _ ch => flattenTList (dims ++ [(c, ixs)]) ch
+  | .guard _ ch => flattenTList dims ch
 def flattenTList (dims : List (String × List Idx)) : List STree → List SNode
   | [] => []
   | t :: ts => flattenT dims t ++ flattenTList dims ts
@@ -219,6 +245,7 @@ along a nesting chain -/
 def treeOk (above : List String) : STree → Bool
   | .node _ => true
   | .sub c _ _ ok ch => ok && !above.contains c && treeOkList (above ++ [c]) ch
+  | .guard _ ch => treeOkList above ch
 def treeOkList (above : List String) : List STree → Bool
   | [] => true
   | t :: ts => treeOk above t && treeOkList above ts
@@ -230,9 +257,22 @@ def instsT (st : StructTable) (nf : Nat) (ρ : Store) : List (String × Idx) →
   | forks, f, .node n => [⟨⟨n.path, forks⟩, runtimeArgs st nf ρ f n, false, false⟩]
   | forks, f, .sub c _ ixs _ ch =>
     ixs.flatMap fun ix => instsTList st nf ρ (forks ++ [(c, ix)]) (fset f c ix) ch
+  | forks, f, .guard d ch =>
+    if isTrue (evalRT st nf ρ f ⟨"bool", 0, 0⟩ d) then [] else instsTList st nf ρ forks f ch
 def instsTList (st : StructTable) (nf : Nat) (ρ : Store) : List (String × Idx) → ForkAssign → List STree → List Inst
   | _, _, [] => []
   | forks, f, t :: ts => instsT st nf ρ forks f t ++ instsTList st nf ρ forks f ts
+end
+
+mutual
+/-- no run-time `disabled` control anywhere (the fragment of `resolver_refines_den_mappedpipes_*`) -/
+def noGuard : STree → Bool
+  | .node _ => true
+  | .sub _ _ _ _ ch => noGuardList ch
+  | .guard _ _ => false
+def noGuardList : List STree → Bool
+  | [] => true
+  | t :: ts => noGuard t && noGuardList ts
 end
 
 /-- BOTH PHASES for call graphs with mapped pipelines and nested map calls of static size -/
@@ -267,7 +307,7 @@ end
 def goForksTable (nm : List String → String) : List SNode → List (String × List String) → List (String × List String)
   | [], acc => acc
   | n :: ns, acc =>
-    let deps := n.inputs.flatMap fun kv => depsOf acc kv.2.exp
+    let deps := (n.inputs.flatMap fun kv => depsOf acc kv.2.exp) ++ n.disable.flatMap (depsOf acc)
     goForksTable nm ns (acc ++ [(nm n.path, (n.forks.map (·.1)).filter deps.contains)])
 
 end Martian.ResolverStatic
